@@ -32,13 +32,16 @@ CLAIMS = {
          "get_associated_assets_by_field_name == field navigation, lookups return the member with the key. All under the ASSUMED object model of python_jsonschema_objects with identity equality "
          "(the floor shows that assumption to be false for nameless assets: known findings), add_asset requires an asset that is not yet in the model, add_attacker requires entry points on model "
          "assets (known finding), termination of the name-uniquification loop is not proved. Bounded: all histories of <=3 API operations against an abstract reference model, random to 12.", '4 C05, 9.2(12)'),
- 'C06': ('other', "Deductive: the rejection half that lives in model.py - _validate_association returns normally iff the association is new, every member is an asset of the model, no asset repeats "
+ 'C06': ('other', "Deductive: LanguageClassesFactory._generate_assets builds, for every asset type of the language graph, a schema entry with exactly the properties id, type (default = the type name) and one numeric property per "
+         "defense step with range [0, 1] and default 1.0 iff the defense is declared Enabled (else 0.0), an allOf reference per super asset and one oneOf reference per asset; and the rejection half that lives in model.py - _validate_association returns normally iff the association is new, every member is an asset of the model, no asset repeats "
          "inside a field and no (left, right) pair is already linked by an association of the same class (association_exists_between_assets inspects EVERY association of that class); "
-         "add_association raises iff not valid and leaves the model unchanged then; 'no pair of assets is linked twice by associations of one class' and 'no asset repeats inside a field' are clauses of the representation invariant wf_model (M6, M3) that every mutator preserves. Bounded: the generated classes (classes_factory), defaults, type / multiplicity / range rejections, which are "
+         "add_association raises iff not valid and leaves the model unchanged then; 'no pair of assets is linked twice by associations of one class' and 'no asset repeats inside a field' are clauses of the representation invariant wf_model (M6, M3) that every mutator preserves. Bounded: the association schemas (_generate_associations uses nested closures: outside the verified subset), the classes generated from the schema, type / multiplicity / range rejections, which are "
          "enforced by python_jsonschema_objects (assumed third party): all languages of a 2-type family + random 3-type languages.", '4 C06'),
- 'C07': ('other', "Deductive (small part): Model.get_asset_by_id, which _from_dict uses to resolve the member ids of associations and entry points (returns a member with that id, None iff none). "
-         "Bounded (the bulk): API-built and hand-written models x {json, yml, yaml}, save/load/modify/save/load sequences on non-canonical paths, defenses by name incl. 0.0 on Enabled defaults; "
-         "json / yaml are external. Known finding: two attackers with one id.", '4 C07'),
+ 'C07': ('other', "Deductive (save side): Model._to_dict yields metadata, one entry per asset keyed by its id (name, type; asset_to_dict), one list element per association in order "
+         "(association_to_dict: class name -> {left field: ids, right field: ids} in field order, extras copied) and one entry per attacker keyed by its id (attacker_to_dict: name, "
+         "entry_points {asset id: {'attack_steps': the step list}}) - under the precondition that attacker ids are pairwise different (the known finding is a model violating it); "
+         "get_asset_by_id (used by _from_dict to resolve ids). The defense values (get_asset_defenses: python_jsonschema_objects internals) are assumed. "
+         "Bounded (load side and files): _from_dict, API-built and hand-written models x {json, yml, yaml}, save/load/modify/save/load sequences; json / yaml are external.", '4 C07'),
  'C08': ('proof', "Every function of the apriori analysis (evaluate_*, propagate_* incl. the recursive contract with a well-founded measure, calculate_viability_and_necessity) is verified against "
          "sidecar contracts whose top-level post is the property: no equation violated, base nodes carry their status, every solution lies below the computed labelling (greatest fixed point), "
          "hence order independence. The floor (all graphs <=2 nodes + random) replays counterexamples.", '4 C08, A.4'),
